@@ -8,12 +8,25 @@
    list of caller actions (advance the clock, add_callback of a recording or raising callback, a registration split into
    test and append around other actions, set_expiry, ready / error / expired / value queries, wait, serve) from w.
 
+   SCOPE (stated here once, repeated where it matters):
+     - "a reply ARRIVES" means: its frame has been completely RECEIVED BY A THREAD OF THE CALLER (the instant [rc] of the
+       dispatch log), not the instant the peer put it on the wire: a reply that sits unread in the socket while the caller
+       does something else until after the expiry has not arrived, the result is Expired (c15_ex_late, c15_ex_unread).
+     - the dispatch of a frame, including all callbacks it triggers, is ONE step of the model: a callback registered by a
+       second thread while the callbacks of the arrival are still running is ordered after that loop in the model; in the
+       code it runs at once, i.e. possibly before callbacks registered earlier have finished ("at once, if registered
+       afterwards" still holds, the relative order of a late registration and a running loop is not claimed).
+     - "a callback raises" means: raises an Exception.  A callback that raises a BaseException (KeyboardInterrupt,
+       SystemExit, GeneratorExit) still loses the callbacks behind it on a tree whose loop catches `Exception` only
+       (finding callbacks:aborted-by-baseexception-callback, found by the harness oracle; not in the model).
+
    The property's own clauses are stated in full below.  Four of them do NOT hold on the current tree in all generality;
    each is proved under an explicit hypothesis and refuted by a witness where the hypothesis fails:
      - "reply came first => value"           needs replies whose value is materialised instantly   (c15_timely_reply_discarded_refuted)
      - "not later unless busy serving"       needs that and frames that arrive whole               (c15_wait_late_without_serving_refuted)
      - "every callback exactly once"         needs isolated callbacks, or none that raises         (c15_callbacks_refuted_when_not_isolated)
-     -   the same, over schedules            needs atomic registration, or none split              (c15_callbacks_refuted_when_not_atomic) *)
+     -   the same, over schedules            needs atomic registration, or none split              (c15_callbacks_refuted_when_not_atomic)
+     - "the timeout error ... never earlier"  needs that materialising the reply does not time out  (c15_value_timeout_error_before_expiry_refuted) *)
 From V Require Import lib.Base model.Async proofs.AsyncP proofs.AsyncTie gen.Gen_libinit gen.Gen_async_.
 From Coq Require Import String.
 Open Scope Z_scope.
@@ -78,6 +91,24 @@ Theorem c15_timely_reply_discarded_refuted : forall i a, exists q acts, no_set_e
   snd (run_hist w0 acts) = [(OTimeout, 7)] /\ g_disp w = [(4, 4, 7, Reply false 42 3)].
 Proof. intros i a. exists [(4, 4, Reply false 42 3)], [Wait]. destruct i, a; vm_compute; repeat split. Qed.
 Print Assumptions c15_timely_reply_discarded_refuted.
+
+(* materialising a reply's value is bounded by the connection's configured sync_request_timeout: a class inquiry the peer
+   needs u >= cfg ticks for times out after cfg ticks and the request receives that timeout error as ITS exception *)
+Theorem c15_materialisation_bounded : forall c e v u,
+  (0 <= c -> c <= Z.of_N u -> (0 < u)%N -> bound_reply (Some c) (Reply e v u) = Reply true tmark (Z.to_N c)) /\
+  (forall cfg, timeout_finite cfg = false \/ Z.of_N u < oz cfg \/ u = 0%N -> bound_reply cfg (Reply e v u) = Reply e v u).
+Proof. intros. split; [apply bound_reply_times_out|intros; now apply bound_reply_in_time]. Qed.
+Print Assumptions c15_materialisation_bounded.
+
+(* ... so "the timeout error is raised at the expiry, never earlier" is false for .value (finding
+   value:timeout-error-from-materialising-reply): no expiry at all (and expiry 40), configured timeout 8, the reply's frame
+   complete at 4, the peer never answers the class inquiry: .value raises the connection's timeout error at 12; the result
+   is ready (with that error), not expired *)
+Theorem c15_value_timeout_error_before_expiry_refuted : forall i a t, t = None \/ t = Some 40 ->
+  let w0 := start false t 0 0 false i a (norm_queue (Some 8) [(4, 4, Reply false 42 130)]) in
+  snd (run_hist w0 [QValue; QExpired; QReady]) = [(ORaise tmark, 12); (OBool false, 12); (OBool true, 12)].
+Proof. intros i a t [-> | ->]; destruct i, a; vm_compute; reflexivity. Qed.
+Print Assumptions c15_value_timeout_error_before_expiry_refuted.
 
 (* 1a. a value is final: whatever happens afterwards (including set_expiry, further replies, any traffic, raising callbacks) *)
 Theorem c15_value_is_final : forall timed t sd t0 tb i a q acts1 acts2 e v,
@@ -144,10 +175,13 @@ Proof.
 Qed.
 Print Assumptions c15_callbacks_once_in_order.
 
-(* every history is admissible once both facts hold (the repaired form): then clause 2 has no side condition *)
-Theorem c15_callbacks_unconditional_when_isolated_and_atomic : forall acts, ok_acts true true acts.
+(* every history OF THE MODEL is admissible once both facts hold (the repaired form).  PARTIAL with respect to the statement
+   (see SCOPE): the model's raising callbacks raise an Exception, and a registration by a second thread is atomic with respect
+   to the whole callback loop of the arrival.  Full statement, not proved: "for callbacks raising anything, and registrations
+   interleaved with a running callback loop, every registered callback runs exactly once, in registration order". *)
+Theorem c15_callbacks_all_histories_when_isolated_and_atomic_partial : forall acts, ok_acts true true acts.
 Proof. unfold ok_acts. induction acts as [|[ ] l IH]; cbn; auto. Qed.
-Print Assumptions c15_callbacks_unconditional_when_isolated_and_atomic.
+Print Assumptions c15_callbacks_all_histories_when_isolated_and_atomic_partial.
 
 (* ... and clause 2 is false on a tree whose callback loop is the plain one (finding callbacks:aborted-by-raising-callback):
    callback 1 raises at the arrival, callback 2 never runs, wait lets callback 1's exception through although the value is
@@ -192,15 +226,18 @@ Theorem c15_wait_exact : forall w, ready (res w) = false -> finite (ttl (res w))
 Proof. exact wait_exact. Qed.
 Print Assumptions c15_wait_exact.
 
-(* the statement's clause ("not later unless the waiting thread is itself busy serving a request"): holds when frames arrive
-   whole and no reply needs time to be materialised -- the last dispatch is then an unrelated REQUEST, received whole at
-   r <= tm, served for d > 0 ticks until exactly the instant of the error *)
+(* the statement's clause ("not later unless the waiting thread is itself busy serving a request"), as far as it holds: when
+   frames arrive whole and no reply needs time to be materialised, the last dispatch is ANOTHER message received whole at
+   r <= tm that kept the thread busy for d > 0 ticks until exactly the instant of the error -- an unrelated REQUEST being
+   served, or the reply to another pending request of the same connection whose callbacks ran that long (callbacks run on
+   the thread that dispatches the reply; finding wait:late-timeout:running-callbacks-of-another-result) *)
 Theorem c15_wait_late_only_when_serving : forall w, ready (res w) = false -> finite (ttl (res w)) = true ->
   whole_frames (queue w) -> instant_replies (queue w) ->
   let tm := tmax (ttl (res w)) in
   let w' := fst (ar_wait w) in
   snd (ar_wait w) = OTimeout -> Z.max (now w) tm < now w' ->
-  exists ds' r d, g_disp w' = g_disp w ++ ds' ++ [(r, r, now w', Traffic d)] /\ r <= tm /\ now w' = r + Z.of_N d /\ (0 < d)%N.
+  exists ds' r m d, (m = Traffic d \/ m = Stray d) /\
+    g_disp w' = g_disp w ++ ds' ++ [(r, r, now w', m)] /\ r <= tm /\ now w' = r + Z.of_N d /\ (0 < d)%N.
 Proof. exact wait_late_only_when_serving. Qed.
 Print Assumptions c15_wait_late_only_when_serving.
 
@@ -208,10 +245,13 @@ Print Assumptions c15_wait_late_only_when_serving.
    (i) the first bytes of a frame nobody waits for are there at 1, the rest at 9: recv() has no deadline, wait raises at 9;
    (ii) a reply complete at 4 whose value is materialised at 7: wait raises at 7.  No request was served in either. *)
 Theorem c15_wait_late_without_serving_refuted : forall i a,
-  (let w := start false (Some 5) 0 0 false i a [(1, 9, Stray)] in
-   ar_wait w = (fst (ar_wait w), OTimeout) /\ now (fst (ar_wait w)) = 9 /\ g_disp (fst (ar_wait w)) = [(1, 9, 9, Stray)]) /\
+  (let w := start false (Some 5) 0 0 false i a [(1, 9, Stray 0)] in
+   ar_wait w = (fst (ar_wait w), OTimeout) /\ now (fst (ar_wait w)) = 9 /\ g_disp (fst (ar_wait w)) = [(1, 9, 9, Stray 0)]) /\
   (let w := start false (Some 5) 0 0 false i a [(4, 4, Reply false 42 3)] in
-   ar_wait w = (fst (ar_wait w), OTimeout) /\ now (fst (ar_wait w)) = 7 /\ g_disp (fst (ar_wait w)) = [(4, 4, 7, Reply false 42 3)]).
+   ar_wait w = (fst (ar_wait w), OTimeout) /\ now (fst (ar_wait w)) = 7 /\ g_disp (fst (ar_wait w)) = [(4, 4, 7, Reply false 42 3)]) /\
+  (* (iii) whole frames, instant replies: the reply to ANOTHER pending request arrives at 3, its callbacks run 10 ticks *)
+  (let w := start false (Some 5) 0 0 false i a [(3, 3, Stray 10)] in
+   ar_wait w = (fst (ar_wait w), OTimeout) /\ now (fst (ar_wait w)) = 13 /\ g_disp (fst (ar_wait w)) = [(3, 3, 13, Stray 10)]).
 Proof. intros i a. destruct i, a; vm_compute; repeat split. Qed.
 Print Assumptions c15_wait_late_without_serving_refuted.
 
@@ -346,6 +386,12 @@ Example c15_ex_late :
   expired_at (ttl (res w0)) 8 = true.
 Proof. vm_compute. repeat split; repeat constructor; discriminate. Qed.
 
+(* "arrives" = received by a thread of the caller: the reply is on the wire, whole, at 1; expiry 5; the caller does something
+   else until 10 and only then looks: expired, the late look discards the reply *)
+Example c15_ex_unread :
+  let w := run_w (start_gen false (Some 5) 0 0 false [(1, 1, Reply false 42 0)]) [Advance 10; QExpired; Serve (Some 0); QReady] in
+  outcome_of w = Expired /\ first_reply (g_disp w) = Some (10, 10, false, 42) /\ log w = [].
+Proof. vm_compute. repeat split. Qed.
 (* hypotheses of c15_wait_exact / _idle are satisfiable: pending, sent at 3, finite expiry at 8, nothing receivable before 9 *)
 Example c15_ex_wait_idle :
   let w := start_gen false (Some 5) 1 2 false [(9, 9, Reply true 1 0)] in
